@@ -20,7 +20,17 @@ THEOREMS = [f"NumbersModel.Props.C14.{t}" for t in (
     "week_of_year_step", "nth_weekday_directive", "era_directive", "scanner_concat",
     "scanner_literal_passthrough", "scanner_quoted_passthrough", "expand_quotes_is_fieldless_scanner",
     "expand_quotes_concat", "duration_text_numbers", "duration_units_shown", "duration_reads_back",
-    "auto_units_valid", "auto_units_exact", "duration_reads_back_auto", "duration_fields_normalised")]
+    "auto_units_valid", "auto_units_exact", "duration_reads_back_auto", "duration_fields_normalised")] + \
+    [f"NumbersModel.Props.C14.Src.{t}" for t in (
+        # the same clauses over the definitions py2lean regenerates from constants.py / cell.py on every run
+        "src_week_of_month_directive", "src_nth_weekday_directive", "src_day_of_year_directives", "src_scanner_concat",
+        "src_scanner_total", "src_scanner_literal_passthrough", "src_scanner_quoted_passthrough",
+        "src_expand_quotes_is_fieldless_scanner", "src_expand_quotes_concat", "src_unit_format", "src_auto_units_valid",
+        "src_duration_reads_back_auto")] + \
+    [f"NumbersModel.Translated.{t}" for t in (
+        "day_of_year_eq_model", "week_of_month_eq_model", "days_occurred_in_month_eq_model", "expand_quotes_eq_model",
+        "decode_date_format_eq_model", "unit_format_eq_model", "auto_units_eq_model")]
+TRANSLATED_GROUPS = ("DateFmt", "Duration")
 PARTIAL = {}
 RULE = ("exhaustive per field on every run through Table.set_cell_formatting(datetime)+Cell.formatted_value: all 86400 "
         "h:m:s x the 13 clock directives; every day of 4 years (leap, non-leap, century non-leap, century leap) x the 17 "
@@ -36,12 +46,18 @@ MANIFEST = {
             "scanner_concat proves a format renders as the concatenation of its parts with literal and quoted text "
             "unchanged; duration_reads_back proves that the digit groups of the displayed duration, weighted by the units "
             "shown, sum to the duration truncated to the smallest unit, for every largest/smallest pair, the three styles "
-            "and automatic units. Tied to the code by per-field exhaustive correspondence through the real API.",
+            "and automatic units. Tied to the code by per-field exhaustive correspondence through the real API. "
+            "_day_of_year, _week_of_month, _days_occurred_in_month (constants.py), _expand_quotes, the whole scanning loop of "
+            "_decode_date_format, _unit_format and _auto_units (cell.py) are additionally TRANSLATED from the source on every "
+            "run (harness/py2lean.py -> Gen/TrDateFmt.lean, Gen/TrDuration.lean), proved equal to the model for all arguments "
+            "(Lemmas/TrDateFmt.lean, Lemmas/TrDuration.lean: the index-based while loops against the model's list recursion) "
+            "and the clauses are restated over the translated definitions (Props.C14.Src.src_*); the translated definitions "
+            "are run against the real functions (trdriver).",
     "note": "`%A/%a/%B/%b/%p` locale names are those of the C locale in the model: compared on every run, not proved. "
             "CPython datetime/strftime is replaced by own civil arithmetic (agreement checked on every day of the range in "
             "the thorough tier). Durations are modelled over integer milliseconds; float exactness at that resolution is "
             "assumed and exercised at every unit boundary.",
-    "technique": "Lean 4 proof (omega / induction / decide on finite tables) + exhaustive differential correspondence",
+    "technique": "Lean 4 proof (omega / induction / decide on finite tables; scanners, directive arithmetic and duration units proved equal to their translation from the Python source) + exhaustive differential correspondence",
 }
 ASSUMPTIONS = [
     "strftime %A %a %B %b %p return the C-locale English names (compared on every run)",
@@ -50,6 +66,11 @@ ASSUMPTIONS = [
     "a cell's duration is a whole number of milliseconds and the float operations of _duration_format are exact at that "
     "resolution up to 10 years (compared at every unit boundary +-1 ms)",
     "str.isalpha() of the running interpreter is generated into Gen.alphaRanges on every run",
+    "translated definitions: value.timetuple().tm_yday, value.replace(day=1).weekday(), str.isalpha and "
+    "_decode_date_format_field are parameters; (value - value.replace(day=1)).days = value.day - 1 (checked on every date of "
+    "the direct stream); int(ceil(x / 7.0)) and int(x / 7) are exact for |x| < 2^50; the float duration is the double nearest "
+    "to ms / 1000 (PyT.Millis); DurationStyle / DurationUnits / SECONDS_IN_* are read from the live module into the "
+    "generated text",
 ]
 
 CLOCK_FMT = "H HH h hh k kk K KK m mm s ss a"
@@ -450,7 +471,8 @@ def run(ctx: Ctx):
     req = [_req("fmt", v, f) for v, f in items]
     for (v, f), o in zip(items, out):
         _oracle_composition(ctx, v, f, o, names)
-    ctx.correspond("random compositions with free quoted text through custom date formats (no validation)", req, out)
+    ctx.correspond("random compositions with free quoted text through custom date formats (no validation)", req, out,
+                   translated=True)
 
     # --- 8. _expand_quotes ------------------------------------------------------------------------------------------------
     from numbers_parser.cell import _expand_quotes
@@ -461,7 +483,8 @@ def run(ctx: Ctx):
     strs += ["'Day #'DDD' of 'yyyy", "aa ''bb'' cc''cc \"dd\" cc''", "it''s", "'it''s'", "'", "''", "'''", "''''", "é'é'"]
     req = ["datefmt expand " + enc_text(s) for s in strs]
     out = ["ok " + enc_text(_expand_quotes(s)) for s in strs]
-    ctx.correspond("_expand_quotes: all strings of length <= 5 over {',a,b,space} + samples", req, out, exhaustive=True)
+    ctx.correspond("_expand_quotes: all strings of length <= 5 over {',a,b,space} + samples", req, out, exhaustive=True,
+                   translated=True)
     for s in strs:
         if "'" not in s and _expand_quotes(s) != s:
             ctx.violation("expand-quotes-literal", f"_expand_quotes({s!r}) = {_expand_quotes(s)!r}", {"text": s})
@@ -491,8 +514,119 @@ def run(ctx: Ctx):
     ctx.correspond(f"durations: {len(vals)} values (unit boundaries +-1 ms up to 10 years, seeded) x 21 unit pairs x 3 styles + automatic",
                    req, out)
 
+    # --- 10b. the functions py2lean translates, called directly ------------------------------------------------------------------
+    translated_source_stream(ctx, vals)
+
     # --- 11. the reference workbooks of the suite (real files -> real model objects) ------------------------------------------
     _reference_workbooks(ctx)
+
+
+def translated_source_stream(ctx: Ctx, dur_vals: list[int]):
+    """_day_of_year / _week_of_month / _days_occurred_in_month / _decode_date_format / _unit_format / _auto_units called
+    directly; the harness supplies the calendar parameters of the translated definitions (tm_yday, weekday of the 1st) from
+    CPython.  Compared with the model driver where it has the op, and with the definitions translated from the source."""
+    import types
+
+    import common
+    from numbers_parser import cell as cellmod
+    from numbers_parser import constants as constmod
+    rng = ctx.rng
+
+    def call(f, *a):
+        try:
+            r = f(*a)
+            if isinstance(r, tuple):
+                return "ok " + " ".join(str(int(x)) for x in r)
+            return "ok " + (enc_text(r) if isinstance(r, str) else str(int(r)))
+        except Exception as e:  # noqa: BLE001
+            return "err " + exc_name(e)
+
+    # directive helpers on every day of a leap / non-leap / century year + seeded days of the whole range
+    days = []
+    for y in (2024, 2023, 1900, 2000, 1, 9999):
+        d = date(y, 1, 1)
+        while d.year == y:
+            days.append(d)
+            if d == date.max:
+                break
+            d += timedelta(days=1)
+    days += [date.fromordinal(rng.randrange(1, date.max.toordinal() + 1)) for _ in range(2000 if ctx.quick else 100000)]
+    req, out = [], []
+    for d in days:
+        v = datetime(d.year, d.month, d.day, rng.randrange(24), rng.randrange(60), rng.randrange(60), rng.randrange(1000000))
+        first_wd = v.replace(day=1).weekday()
+        if (v - v.replace(day=1)).days != v.day - 1:
+            ctx.disagreements.append({"subspace": "assumption (value - value.replace(day=1)).days == value.day - 1",
+                                      "request": v.isoformat(), "impl": str((v - v.replace(day=1)).days), "model": str(v.day - 1)})
+        req += [f"datefmt doy {v.timetuple().tm_yday}", f"datefmt wom {v.day} {first_wd}", f"datefmt occ {v.day}"]
+        o = [call(constmod._day_of_year, v), call(constmod._week_of_month, v), call(constmod._days_occurred_in_month, v)]
+        out += o
+        if o[1] != f"ok {(v.day - 1 + first_wd) // 7 + 1}":
+            ctx.violation("directive-W", f"_week_of_month({v.isoformat()}) -> {o[1]}, documented week {(v.day - 1 + first_wd) // 7} + 1",
+                          {"value": v.isoformat(), "format": "W"})
+        if o[2] != "ok " + enc_text(str((v.day - 1) // 7 + 1)):
+            ctx.violation("directive-F", f"_days_occurred_in_month({v.isoformat()}) -> {_dec(o[2])!r}, documented {(v.day - 1) // 7 + 1}",
+                          {"value": v.isoformat(), "format": "F"})
+        if o[0] != f"ok {(d - date(d.year, 1, 1)).days + 1}":
+            ctx.violation("directive-D", f"_day_of_year({v.isoformat()}) -> {o[0]}", {"value": v.isoformat(), "format": "D"})
+    # parameters outside what a calendar produces (the equivalence theorems hold for all naturals)
+    for dd in range(0, 45):
+        for wd in range(0, 9):
+            req.append(f"datefmt wom {dd} {wd}")
+            out.append(f"ok {-(-(dd + wd) // 7)}")      # int(ceil((dd + wd) / 7.0)) evaluated as written
+        req.append(f"datefmt occ {dd}")
+        out.append("ok " + enc_text(str(int((dd - 1) / 7) + 1)))
+    # _decode_date_format called directly (no document): edge texts over the scanner alphabet
+    import itertools
+    texts = [""]
+    for k in range(1, 5 if ctx.quick else 7):
+        texts += ["".join(t) for t in itertools.product("'dM 1", repeat=k)]
+    v = datetime(2024, 2, 29, 0, 7, 9, 123456)
+    for t in texts:
+        req.append(_req("fmt", v, t))
+        out.append(call(cellmod._decode_date_format, t, v))
+    # _unit_format
+    for unit, ab in (("week", None), ("day", None), ("hour", None), ("minute", None), ("second", None), ("millisecond", "ms"),
+                     ("", None), ("", "x"), ("é", None), ("日曜", "日")):
+        for value in (0, 1, 2, 10, 11, 100):
+            for style in (0, 1, 2, 3):
+                req.append(f"dur unitfmt {enc_text(unit)} {value} {style} " + ("n" if ab is None else "s " + enc_text(ab)))
+                out.append(call(cellmod._unit_format, unit, value, style, ab))
+    name = "translated functions called directly (_day_of_year, _week_of_month, _days_occurred_in_month, _decode_date_format, _unit_format) vs the definitions translated from the source"
+    sub = ctx.subspaces.setdefault(name, {"cases": 0, "exhaustive": False, "disagreements": 0})
+    sub["cases"] += len(req)
+    ctx.evaluations += len(req)
+    if ctx.translated_available:
+        tr = common.run_model(req, driver=common.TRDRIVER)
+        sub["translated_source_cases"] = len(req)
+        for r, a, b in zip(req, out, tr):
+            if a != b:
+                sub["disagreements"] += 1
+                if len(ctx.disagreements) < 50:
+                    ctx.disagreements.append({"subspace": name, "request": r, "impl": a, "model": b})
+    else:
+        sub["skipped_model"] = True
+
+    # _auto_units: model driver (`dur units`) and translated definition
+    req, out = [], []
+    pairs = [(l, s) for l, *_ in UNITS for s, *_ in UNITS if l <= s]
+    for ms in dur_vals:
+        l, s = rng.choice(pairs)
+        nf = types.SimpleNamespace(duration_unit_largest=l, duration_unit_smallest=s)
+        o = call(cellmod._auto_units, float(timedelta(milliseconds=ms).total_seconds()), nf)
+        req.append(f"dur units {ms} {l} {s}")
+        out.append(o)
+        if o.startswith("ok "):
+            sm, lg = (int(x) for x in o[3:].split())
+            ok = sm in UNIT_MS and lg in UNIT_MS and lg <= sm and ms % UNIT_MS[sm] == 0 and \
+                (ms == 0 or (ms >= UNIT_MS[lg] and (lg == 1 or ms < UNIT_MS[lg // 2])))
+            if not ok:
+                ctx.violation("auto-units", f"_auto_units({ms} ms, largest {l}, smallest {s}) -> smallest {sm}, largest {lg}",
+                              {"ms": ms, "style": 2, "largest": l, "smallest": s, "auto": True})
+        else:
+            ctx.violation("auto-units-raises", f"_auto_units({ms} ms) -> {o}", {"ms": ms, "style": 2, "largest": l, "smallest": s, "auto": True})
+    ctx.correspond("_auto_units called directly on whole milliseconds (unit boundaries +-1 ms, seeded)", req, out, translated=True)
+    common.python_operator_stream(ctx)
 
 
 def _oracle_composition(ctx: Ctx, v: datetime, fmt: str, out: str, names):
@@ -572,7 +706,7 @@ def _reference_workbooks(ctx: Ctx):
                         req.append(_req("fmt", c.value, fs))
                         out.append("ok " + enc_text(c.formatted_value))
     ctx.correspond("cells of the suite's reference workbooks (duration_112, date_formats, test-custom-formats) read from disk",
-                   req, out, exhaustive=True)
+                   req, out, exhaustive=True, translated=True)
 
 
 def replay(data):
